@@ -18,19 +18,30 @@ fn run_len() -> BoxedStrategy<RunLen> {
     .boxed()
 }
 
+fn level() -> BoxedStrategy<f32> {
+    prop_oneof![
+        4 => 0.0f32..=1.0,
+        // a small alphabet of exact levels, so that different stretches and presses often share bit-identical samples
+        3 => (0u8..=16).prop_map(|k| k as f32 / 16.0),
+        1 => Just(0.0f32),
+        1 => Just(1.0f32),
+    ]
+    .boxed()
+}
+
 fn seg() -> BoxedStrategy<Seg> {
     (
         run_len(),
-        prop_oneof![5 => 0.0f32..=1.0, 1 => Just(0.0f32), 1 => Just(1.0f32)],
-        proptest::option::of(0.0f32..=1.0),
+        level(),
+        proptest::option::of(level()),
         prop_oneof![1 => Just(0.0f32), 1 => 0.0f32..0.2],
         any::<u32>(),
         0u8..3,
         0.0f32..=1.0,
         prop_oneof![2 => Just(0u16), 1 => Just(1u16), 2 => 2u16..50, 1 => 100u16..2000],
-        any::<u32>(),
+        (any::<u32>(), prop_oneof![2 => Just(0u8), 1 => Just(1u8)]),
     )
-        .prop_map(|(len, level, l2, noise, noise_key, gap, gap_level, poll_every, alt_key)| Seg {
+        .prop_map(|(len, level, l2, noise, noise_key, gap, gap_level, poll_every, (alt_key, pattern))| Seg {
             len,
             level,
             level2: l2.unwrap_or(level),
@@ -40,13 +51,26 @@ fn seg() -> BoxedStrategy<Seg> {
             gap_level,
             poll_every,
             alt_key,
+            pattern,
         })
         .boxed()
 }
 
 pub fn ribbon_case(max_segs: usize) -> BoxedStrategy<RibbonCase> {
-    (0u8..16, 0u8..4, 0.0f32..=1.0, log_uniform(1.0, 1000.0), proptest::collection::vec(seg(), 1..=max_segs))
-        .prop_map(|(rate_idx, softpot_idx, dropper_frac, pullup_factor, segs)| RibbonCase { rate_idx, softpot_idx, dropper_frac, pullup_factor, segs })
+    (0u8..24, 0u8..4, 0.0f32..=1.0, log_uniform(1.0, 1000.0), proptest::collection::vec(seg(), 1..=max_segs), proptest::option::weighted(0.03, 0u8..6))
+        .prop_map(|(rate_idx, softpot_idx, dropper_frac, pullup_factor, mut segs, huge)| {
+            // occasionally one very long unbroken press (kept to the cheaper sample rates: the controller re-averages
+            // its whole window on every sample)
+            let mut rate_idx = rate_idx;
+            if let Some(k) = huge {
+                let cheap = [0u8, 1, 2, 3, 4, 5, 6, 7, 16, 17, 18, 19, 20];
+                rate_idx = cheap[rate_idx as usize % cheap.len()];
+                let at = (k as usize) % segs.len();
+                segs[at].len = RunLen::Huge(k);
+                segs[at].poll_every = [0u16, 1000, 4096][k as usize % 3];
+            }
+            RibbonCase { rate_idx, softpot_idx, dropper_frac, pullup_factor, segs }
+        })
         .boxed()
 }
 
@@ -77,7 +101,7 @@ pub fn replay(property: &str, engine: &str, case: &Value) -> Result<(), Failure>
     }
 }
 
-const GEN: &str = "proptest histories: one of 16 compile-time sample rates (100 Hz .. 192 kHz, buffer sized by sample_rate_to_capacity), resistor triple (softpot in {5k,10k,20k,100k}, dropper in [100, softpot/5], pull-up = [1,1000] x divider, log-uniform), 1..8 segments = in-range run (length from {1-5 glitch, U[1,L*-1] tap, L*-1, L*, L*+1, up to L*+3*capacity}; level/ramp/noise per run; samples at least 1e-3 inside the in-range interval) followed by 1-3 out-of-range samples (at least 1e-3 outside); edge getters polled every k samples (k from {end only, 1, 2-49, 100-1999}); L* = measured capture length of a fresh controller, must be capacity + settling (-1); ";
+const GEN: &str = "proptest histories: one of 24 compile-time sample rates (100 Hz .. 192 kHz, buffer sized by sample_rate_to_capacity), resistor triple (softpot in {5k,10k,20k,100k}, dropper in [100, softpot/5], pull-up = [1,1000] x divider, log-uniform), 1..8 segments = in-range run (length from {1-5 glitch, U[1,L*-1] tap, L*-1, L*, L*+1, up to L*+3*capacity}; level/ramp/noise per run; samples at least 1e-3 inside the in-range interval) followed by 1-3 out-of-range samples (at least 1e-3 outside); edge getters polled every k samples (k from {end only, 1, 2-49, 100-1999}); L* = measured capture length of a fresh controller, must be capacity + settling (-1); ";
 
 pub fn c15(quick: bool, seed: u64) -> Outcome {
     let mut o = Outcome::new(&format!("{}model: r = length of the current unbroken in-range run, finger_is_pressing() == (r >= L*) after every sample, two latches for the edge getters. non-trivial = history with >= 2 runs in which a run shorter than L* precedes another run and >= 1 press is reported; distinct by hash", GEN));
